@@ -31,7 +31,10 @@ ASSUMPTIONS = c11.ASSUMPTIONS + [
 LEVEL_TEXT = (
     "Every single worker death at every point of its batch, under every schedule of the remaining system within the bounds, "
     "is executed against the real parent loop; the documented abort behaviour lives in a branch the test suite never enters. "
-    "A sample of faults is executed with real processes killed by SIGKILL to bind the fault model to the OS."
+    "Deaths during a delivery (the queue's write lock stays taken) are part of the fault alphabet. A sample of the explored fault "
+    "schedules is replayed on real processes, and a fixed family of real runs (SIGKILL, SIGTERM, os._exit, exception; before, "
+    "between, during and after the deliveries; injected through the worker's queue and through the aligner) binds the fault "
+    "model to what the operating system does."
 )
 LEVEL_NOTE = c11.LEVEL_NOTE
 DESIGN_REF = "DESIGN.md §2.2-2.3"
